@@ -469,3 +469,67 @@ def coq_obs(tree):
         "; ".join(rootr),
         nat_list(sorted(int(n) for n in tree.nodes)),
     )
+
+
+# ---------------------------------------------------------------- jobs (run in worker processes)
+def make_case(seed, n_points, length, grid=4, want_coq=False, max_samples=2):
+    """Deterministic random case: data values, start spec, history (generated against the real tree)."""
+    import random
+
+    from .trees import make_data, rational_values
+
+    rng = random.Random(seed)
+    ns = rng.randint(1, max_samples)
+    vals = rational_values(rng, n_points, ns, grid)
+    data = make_data(vals, outlier_prob=0.1)
+    spec, hist = gen_history(rng, data, rng.randint(0, max(0, n_points - 3)), length)
+    return {"seed": seed, "ns": ns, "grid": grid, "vals": vals, "data": data, "spec": spec, "hist": hist}
+
+
+def coq_case_item(case):
+    """(header, item): the Coq boolean comparing the model's trace with the real tree after every edit."""
+    data, spec, hist = case["data"], case["spec"], case["hist"]
+    tree = build_tree(spec, data)
+    obs = []
+    for e in hist:
+        try:
+            tree = apply_edit(tree, e, data)
+            obs.append("Some " + coq_obs(tree))
+        except Exception:
+            obs.append("None")
+            break
+    item = "match build %d %d %s %s with Some t0 => chk_trace (htrace %d %d [%s] t0) [%s] | None => false end" % (
+        case["ns"], case["grid"], coq_spec_nodes(spec[0]), dps(spec[1]), case["ns"], case["grid"],
+        "; ".join(coq_hedit(e) for e in hist), "; ".join(obs))
+    return item
+
+
+def history_job(args):
+    """args = (seed, n_points, length, want_coq).  Returns a JSON-able summary."""
+    seed, n_points, length, want_coq = args
+    case = make_case(seed, n_points, length)
+    hist = case["hist"]
+    ops = {}
+    for e in hist:
+        ops[e[0]] = ops.get(e[0], 0) + 1
+    out = {"seed": seed, "n_points": n_points, "length": len(hist), "ops": ops, "ns": case["ns"], "failure": None,
+           "spec": case["spec"], "final": None, "coq": None}
+    try:
+        tree, f = replay(case["spec"], hist, case["data"])
+    except Exception as ex:  # the grammar only emits edits the code accepts: an exception is a finding too
+        import traceback
+
+        out["failure"] = ("EXC", -1, "%r\n%s" % (ex, traceback.format_exc()[-1500:]))
+        out["hist"] = hist
+        return out
+    if f is not None:
+        small, f2 = shrink(case["spec"], hist, case["data"], f[0])
+        out["failure"] = f2 or f
+        out["hist"] = small
+        out["full_hist_len"] = len(hist)
+        out["vals"] = [[[str(x) for x in row] for row in v] for v in case["vals"]]
+    else:
+        out["final"] = tree_spec(tree)
+    if want_coq and f is None:
+        out["coq"] = (coq_data_defs(case["vals"]), coq_case_item(case))
+    return out
